@@ -1504,7 +1504,11 @@ class Gen:
             tx.fxall = ', '.join(n for n, _t in fxall)
             empty = fp['pclose'] == fp['popen'] + 1
             trailing = ct[fp['pclose'] - 1].text == ','
-            pending_inserts.append((ct[fp['pclose']].start, ('' if (empty or trailing) else ', ') + ', '.join(f'{n}: &mut {t}' for n, t in fxall), 'R13'))
+            # an effect-state name that is already a parameter of the fn (the real code threads it itself) is not added again
+            have = {ct[q].text for q in range(fp['popen'] + 1, fp['pclose']) if ct[q].kind == 'id' and ct[q + 1].text == ':' and ct[q + 2].text != ':'}
+            fxnew = [(n, t) for n, t in fxall if n not in have]
+            if fxnew:
+                pending_inserts.append((ct[fp['pclose']].start, ('' if (empty or trailing) else ', ') + ', '.join(f'{n}: &mut {t}' for n, t in fxnew), 'R13'))
             tx.log.append({'rule': 'R13', 'at': f'{it.file}:{l0}', 'text': item.name, 'note': 'effect-state parameter(s) added: ' + ', '.join(f'`{n}: &mut {t}`' for n, t in fxall)})
             if it.opts.get('awaitfx'):
                 # R24: `EXPR.await` => `EXPR.await_model(fx)`: the suspension is modelled as a blocking call of an ASSUMED
@@ -1750,6 +1754,8 @@ class Gen:
                     hits.append((m0.start(), pos))
             if len(hits) != 1:
                 raise SpecError(f'LOST-ANCHOR: {region}: idiom <<{a.arg}>> occurs {len(hits)} times')
+            # edits already recorded inside the replaced text (renames, `_ =` rewrites, dropped tracing) go away with it
+            tx.edits = [e_ for e_ in tx.edits if not (tx.start + hits[0][0] <= e_[0] and e_[1] <= tx.start + hits[0][1])]
             tx.edit(tx.start + hits[0][0], tx.start + hits[0][1], a.arg2, 'R11', f'std idiom replaced by contract stub: {a.arg2}')
             return
         pat = mkpat(a.arg)
@@ -1913,7 +1919,7 @@ class Gen:
                 self.apply_idiom(sub, a, region)     # R11 also applies inside a lifted closure body
         if it.opts.get('fx'):
             apply_fx(sub, sct, fp['bopen'], fp['bclose'], it.opts['fx'].split(':', 1)[0], it.opts.get('fxcalls', '').split(','), inserts,
-                     lambda pos, text: (pos, text))
+                     lambda pos, text: (pos, text), bare=bool(it.opts.get('fxbare')))
         auto_closure_patterns(sub, sct, fp['bopen'] + 1, fp['bclose'], lambda pos, text: inserts.append((pos, text)))
         if self.inject_false == region:
             inserts.append((sct[fp['bopen']].end, ' proof { assert(false); } let __vac = {'))
@@ -1999,9 +2005,14 @@ class Gen:
         return ''.join(self.out)
 
 
-def generate(unit_name, inject_false=None):
+def generate(unit_name, inject_false=None, extra_consts=None):
     path = os.path.join(VERIF, 'specs', 'units', unit_name + '.vspec')
     u = parse_vspec(path)
+    # R31 (automatic, driven by vp/run.py): a `const NAME` of the same source file that extracted text refers to but the sidecar
+    # does not list (a change introduced or started using it) is extracted verbatim as well -- strictly more real text, no contract
+    first_item = next((k for k, p_ in enumerate(u.parts) if p_[0] == 'item'), len(u.parts))
+    for (cfile, cname) in (extra_consts or []):
+        u.parts.insert(first_item, ('item', ItemSpec(file=cfile, kind='const', sel=cname, props=[], opts={'auto': '1'})))
     g = Gen(u)
     g.inject_false = inject_false
     text = g.build()
